@@ -28,6 +28,7 @@ META = {
         "after a failed save the message still completes and every later message is processed and stored. "
         "distinct_nontrivial = distinct terminal per-message logs."
         " Fault-overlap family (mc/fault_overlap.py): message X suffers one fault out of {pre_execute/post_execute/post_save/on_error hook, sync or async ack, result backend} x {RuntimeError, CancelledError, TimeoutError}, backend failing once, body raise/CancelledError/timeout/no-result, malformed/unknown message, broker stream error, while the healthy message Y has suspension points before, inside and after its function and the stop request may arrive at any point; Y's result is stored exactly once and reflects its outcome, so is X's for body outcomes and backend failures with an Exception; X is exempt for hook / ack faults, CancelledError from the backend and junk."
+        " Repeated faults (mc/fault_overlap.py::repeats): the same fault k times in a row (k in 3..6; thorough up to 10) on one worker, then healthy messages - a counter, pool, budget or throttle inside the worker must not change what happens at the k-th occurrence. The healthy messages' results must be stored."
     ),
     "assumptions": [
         "sync tasks run on a fake executor: completion is an explorer event; in the 'threads' scenarios each sync function runs on a real thread under a strict baton hand-off (entering and leaving the function are separate explorer events, so executions overlap), otherwise atomically with no thread",
@@ -218,6 +219,11 @@ def scenarios(tier: str) -> List[Dict[str, Any]]:
             k, d = sc["fault"]
             sc["relax_x"] = k in ("hook", "ack", "junk") or (k == "save" and d == "cancel")
             out.append(sc)
+    # the same fault 3..5 times in a row, then two healthy messages whose results must be stored
+    for sc in fo.repeats(tier, ks=(3, 4, 5) if tier == "quick" else (3, 4, 5, 6, 8), tail=2):
+        k, d = sc["fault"]
+        sc["relax_x"] = k in ("hook", "ack", "junk") or (k == "save" and d == "cancel")
+        out.append(sc)
     for j1, j2 in itertools.product(range(len(sync_base)), repeat=2):
         sc = _sc([dict(sync_base[j1]), dict(sync_base[j2])], 0)
         sc["executor"] = "threads"
